@@ -1,7 +1,50 @@
-import XpmVerif.Model.Sched
+import XpmVerif.Proofs.SchedCap
 import XpmVerif.Generated.SchedFlags
+/-! C09 — tokens are always given back and waiting jobs eventually run (one scheduler, in-process token;
+    the file-based multi-scheduler part is Properties/C09Files.lean).
+    Theorems about the scheduler model M2 (Model/Sched.lean), for every workload, schedule and flags. -/
 namespace XpmVerif.C09
 open XpmVerif.Sched
+
 /-- obligation on the current source: the three scheduler repairs are present. -/
 theorem scheduler_flags : Gen.schedFlags = { readyGuarded := true, resubmitRegisters := true, abortRechecks := true } := by decide
+
+/-- **whatever way a job ends** — success, failure (both: the exit code arrives, pc `codeWait`) or an aborted
+    start because another dependency could not be locked (pc `lockExitAbort`) — the step that leaves the
+    `with Locks()` block gives back exactly what the job held, to every token, and touches nobody else's holdings. -/
+theorem given_back_on_every_exit (fl : Flags) (s : St) (j : Nat)
+    (hpc : (s.jobs j).pc = .lockExitAbort ∨ (s.jobs j).pc = .codeWait) :
+    ((s.resume fl j).jobs j).held = [] ∧
+    (∀ t, (s.resume fl j).avail t = s.avail t + (heldTok (s.jobs j) t : Nat)) ∧
+    (∀ i, i ≠ j → ((s.resume fl j).jobs i).held = (s.jobs i).held) :=
+  resume_releases fl s j hpc
+
+/-- a job holds something only while its start is being aborted or between its launch and the processing of
+    its exit code — in all three situations a helper thread of that job is pending, so a holder is never idle. -/
+theorem holder_is_never_idle (fl : Flags) (totals : List Nat) (s : St) (h : Reachable fl totals s) (j : Nat)
+    (hh : (s.jobs j).held ≠ []) :
+    (s.jobs j).pc = .lockExitAbort ∨ (s.jobs j).pc = .lockExitRun ∨ (s.jobs j).pc = .codeWait := by
+  obtain ⟨N, hi⟩ := h.inv
+  have h1 := (hi.job j).1 hh
+  revert h1; cases (s.jobs j).pc <;> simp [PC.holds]
+
+/-- **an idle token always shows its full capacity**: in every reachable state with nothing left to run
+    (empty ready queue, no pending helper thread), every token has `available = total` and nobody holds anything. -/
+theorem idle_token_is_full (fl : Flags) (totals : List Nat) (s : St) (h : Reachable fl totals s)
+    (hr : s.ready = []) (ht : s.threads = []) (t : Nat) :
+    s.avail t = s.total t ∧ ∀ j, (s.jobs j).held = [] := by
+  obtain ⟨N, hi⟩ := h.inv
+  exact hi.idle_full hr ht t
+
+/-- conservation at every instant (C08's invariant, restated): availability plus holdings is the capacity. -/
+theorem nothing_leaks (fl : Flags) (totals : List Nat) (s : St) (h : Reachable fl totals s) (t : Nat) :
+    s.avail t + (sumTo s.n (fun j => heldTok (s.jobs j) t) : Nat) = (s.total t : Int) := by
+  obtain ⟨N, hi⟩ := h.inv
+  exact (hi.cap t).1
+
+/- "A waiting job whose request fits the capacity is eventually launched": no-deadlock is supported by the
+   exhaustive and random schedule exploration of the check (monitors `hang`, `waiting-job-never-launched`);
+   the Lean statement (`quiescent_all_final`, DESIGN.md §4 M2) is not proved here, and livelock-freedom of
+   repeated aborted starts is not proved at all (partial, see DESIGN.md §10). -/
+
 end XpmVerif.C09
